@@ -34,6 +34,33 @@ def run(ctx: Ctx) -> None:
     ctx.floor("num.raise-warning", 8)
 
 
+def _derived(fn, sp, copies):
+    """(names derived from self.target, names derived from the evaluated state) — assignment / loop / comprehension closure"""
+    tgt, st = set(), {sp} | set(copies)
+    changed = True
+    while changed:
+        changed = False
+        binds = []
+        for n in ast.walk(fn):
+            if isinstance(n, ast.Assign):
+                for t in n.targets:
+                    binds.append((t, n.value))
+            elif isinstance(n, ast.For):
+                binds.append((n.target, n.iter))
+            elif isinstance(n, ast.comprehension):
+                binds.append((n.target, n.iter))
+        for t, v in binds:
+            names = [x.id for x in ast.walk(t) if isinstance(x, ast.Name)]
+            is_t = any((isinstance(x, ast.Attribute) and norm(x) == "self.target") or (isinstance(x, ast.Name) and x.id in tgt) for x in ast.walk(v))
+            is_s = any(isinstance(x, ast.Name) and x.id in st for x in ast.walk(v))
+            for nm in names:
+                if is_t and not is_s and nm not in tgt:
+                    tgt.add(nm); changed = True
+                if is_s and not is_t and nm not in st:
+                    st.add(nm); changed = True
+    return tgt, st
+
+
 def rule_rep_dispatch(ctx: Ctx) -> None:
     repo = ctx.repo
     m = repo.module(METRICS)
@@ -58,9 +85,18 @@ def rule_rep_dispatch(ctx: Ctx) -> None:
             if call_attr(c) in backend_calls and (call_name(c) or "").split(".")[0] in ("dmf", "sfm"):
                 if len(c.args) != 2:
                     raise AnalysisError(f"{q}: backend call shape {short(c)}")
-                a, b = norm(c.args[0]), norm(c.args[1])
-                tgt_ok = a.startswith("self.target.") or a == "tableau"
-                st_ok = any(b.startswith(x + ".") for x in copies | {sp, "rep_data"}) or b in ("t_i",)
+                tgt_d, st_d = _derived(fn, sp, copies)
+                def _mentions(e, names, attr_self_target=False):
+                    for x in ast.walk(e):
+                        if isinstance(x, ast.Name) and x.id in names:
+                            return True
+                        if attr_self_target and isinstance(x, ast.Attribute) and norm(x) == "self.target":
+                            return True
+                    return False
+                a_t, a_s = _mentions(c.args[0], tgt_d, True), _mentions(c.args[0], st_d)
+                b_t, b_s = _mentions(c.args[1], tgt_d, True), _mentions(c.args[1], st_d)
+                tgt_ok = a_t and not a_s
+                st_ok = b_s and not b_t
                 if tgt_ok and st_ok:
                     ctx.ok("rep.dispatch", m, c, what="target paired with the (converted) state")
                 else:
